@@ -110,7 +110,7 @@ type Field struct {
 type Prod struct {
 	Fields   []Field `json:"fields"`
 	Expr     *Expr   `json:"expr"`
-	PosStyle int     `json:"pos_style"`       // 0 plain Pos/EndPos/Tokens, 1 embedded mixin, 2 convertible position type, 3 none
+	PosStyle int     `json:"pos_style"`       // 0 plain Pos/EndPos/Tokens, 1 embedded mixin, 2 convertible position type, 3 none, 4 own fields shadowing a mixin, 5 only EndPos, 6 only Pos, 7 only Tokens
 	TagStyle int     `json:"tag_style"`       // 0 whole tag, 1 parser:"..."
 	Tight    bool    `json:"tight"`           // omit optional whitespace between tag tokens
 	Embed    int     `json:"embed,omitempty"` // the first Embed fields live in an embedded struct (Go source: named; StructOf: when EmbedDepth > 0)
@@ -534,6 +534,12 @@ func (g *Grammar) Types() []reflect.Type {
 			sf = append(sf, reflect.StructField{Name: "PosMixin", Type: tMixin, Anonymous: true})
 		case 2:
 			sf = append(sf, reflect.StructField{Name: "Pos", Type: tMyPos}, reflect.StructField{Name: "EndPos", Type: tMyPos}, reflect.StructField{Name: "Tokens", Type: tToks})
+		case 5:
+			sf = append(sf, reflect.StructField{Name: "EndPos", Type: tPos}) // only one of the three
+		case 6:
+			sf = append(sf, reflect.StructField{Name: "Pos", Type: tPos})
+		case 7:
+			sf = append(sf, reflect.StructField{Name: "Tokens", Type: tToks})
 		case 4:
 			// the node's own fields shadow the same-named fields of the embedded mixin
 			sf = append(sf, reflect.StructField{Name: "PosMixin", Type: tMixin, Anonymous: true},
